@@ -50,24 +50,20 @@ theorem C05_followed_le_budget (W : World) (c : Client) (fuel : Nat) (req : Req)
         (requestWrap (.pool p) req).2 req.retries (req.redirect.getD true) (req.assertSameHost.getD true) b hb
       unfold Run.followed; omega
 
-/- Full statement (the property text): for every placement of the policy,
-`(run W c fuel req).followed ≤ budget (supplied c req)`.  It is FALSE for a policy given only to the
-`PoolManager` / `ProxyManager` constructor (`C05_manager_policy_ignored_witness` below):
-`PoolManager.urlopen` derives the redirect policy from the per-request keyword only.  Proved part:
-every other placement (`PlacementHonoured`: per request, on a bare pool, or no policy at all);
-`C05_excluded_placement` shows that the excluded case is exactly "a policy on the manager
-constructor and none per request". -/
-theorem C05_followed_le_supplied_partial (W : World) (c : Client) (fuel : Nat) (req : Req)
-    (h : PlacementHonoured c req) :
+/-- **Budget, for the supplied policy** (the property text) — for every placement of the policy (per
+request, on a bare pool, or on the `PoolManager` / `ProxyManager` constructor; as `False`, an integer
+or a `Retry`): the number of redirects followed never exceeds the redirect budget nor the total
+budget of the policy the caller *supplied*. -/
+theorem C05_followed_le_supplied (W : World) (c : Client) (fuel : Nat) (req : Req) :
     (∀ b, (supplied c req).redirectBudget = some b → (run W c fuel req).followed ≤ b) ∧
     (∀ b, (supplied c req).totalBudget = some b → (run W c fuel req).followed ≤ b) := by
-  rw [← effective_eq_supplied c req h]
+  rw [← effective_eq_supplied c req]
   exact C05_followed_le_budget W c fuel req
 
-/-- the case `C05_followed_le_supplied_partial` excludes, spelled out -/
-theorem C05_excluded_placement (c : Client) (req : Req) :
-    ¬ PlacementHonoured c req ↔ ∃ m, c = .manager m ∧ req.retries = .none ∧ m.retries ≠ .none :=
-  not_placementHonoured_iff c req
+/-- every placement is honoured: the policy the code consults *is* the supplied one — the request
+keyword if given, else the constructor's (pool or manager) -/
+theorem C05_effective_is_supplied (c : Client) (req : Req) : effective c req = supplied c req :=
+  effective_eq_supplied c req
 
 /-! ### a world in which every reply is `302 Location: /next` -/
 
@@ -79,36 +75,46 @@ def loopWorld : World where
   join := fun _ _ => some [104, 116, 116, 112, 58, 47, 47, 97, 47]
 def plainReq (retries : Arg) : Req := ⟨false, sGET, [104, 116, 116, 112, 58, 47, 47, 97, 47], none, none, retries, none, none⟩
 
-/-- **Witness of the defect** (model = code as it is): `PoolManager(retries=False)` — supplied budget 0,
-redirects disabled — follows three redirects of a redirect loop (the budget of `Retry.DEFAULT`) and
-ends in `MaxRetryError`; the same policy per request sends one request and returns the 302. -/
-theorem C05_manager_policy_ignored :
+/-- **The constructor's policy is honoured** (the input on which the unrepaired code followed three
+redirects and raised `MaxRetryError`): `PoolManager(retries=False)` — supplied budget 0, redirects
+disabled — in a redirect loop sends one request and returns the 302, exactly as the same policy given
+per request does. -/
+theorem C05_manager_policy_honoured :
     (supplied (.manager ⟨.false, .dict [], none⟩) (plainReq .none)).redirectBudget = some 0 ∧
-    (run loopWorld (.manager ⟨.false, .dict [], none⟩) 10 (plainReq .none)).followed = 3 ∧
-    (run loopWorld (.manager ⟨.false, .dict [], none⟩) 10 (plainReq .none)).outcome = .maxRetry ∧
+    (run loopWorld (.manager ⟨.false, .dict [], none⟩) 10 (plainReq .none)).followed = 0 ∧
+    (run loopWorld (.manager ⟨.false, .dict [], none⟩) 10 (plainReq .none)).outcome
+      = .response ⟨302, some [47, 110]⟩ ∧
     (run loopWorld (.manager ⟨.none, .dict [], none⟩) 10 (plainReq .false)).followed = 0 ∧
     (run loopWorld (.manager ⟨.none, .dict [], none⟩) 10 (plainReq .false)).outcome
       = .response ⟨302, some [47, 110]⟩ := by
   decide
 
-/-- **Negation witness** for the full statement: without `PlacementHonoured` the bound by the
-*supplied* policy fails (manager constructor `retries=False`, nothing per request) -/
-theorem C05_manager_policy_ignored_witness :
-    ¬ (∀ (W : World) (c : Client) (fuel : Nat) (req : Req) (b : Nat),
-        (supplied c req).redirectBudget = some b → (run W c fuel req).followed ≤ b) := by
-  intro h
-  have := h loopWorld (.manager ⟨.false, .dict [], none⟩) 10 (plainReq .none) 0 (by decide)
-  exact absurd this (by decide)
+/-- the former negation witness, now positive: on that very input (manager constructor
+`retries=False`, nothing per request, the 302 loop) the bound by the *supplied* policy holds, and so
+does a constructor-level `Retry(redirect=1)` / integer `1` (one redirect followed, then
+`MaxRetryError`) -/
+theorem C05_manager_policy_honoured_witness :
+    (∀ b, (supplied (.manager ⟨.false, .dict [], none⟩) (plainReq .none)).redirectBudget = some b →
+      (run loopWorld (.manager ⟨.false, .dict [], none⟩) 10 (plainReq .none)).followed ≤ b) ∧
+    (run loopWorld (.manager ⟨.retry (Retry.ofTotal (.num 10) (.num 1)), .dict [], none⟩) 10 (plainReq .none)).followed = 1 ∧
+    (run loopWorld (.manager ⟨.retry (Retry.ofTotal (.num 10) (.num 1)), .dict [], none⟩) 10 (plainReq .none)).outcome
+      = .maxRetry ∧
+    (run loopWorld (.manager ⟨.int 1, .dict [], none⟩) 10 (plainReq .none)).followed = 1 ∧
+    (run loopWorld (.manager ⟨.int 1, .dict [], none⟩) 10 (plainReq .none)).outcome = .maxRetry :=
+  ⟨(C05_followed_le_supplied loopWorld _ 10 _).1, by decide, by decide, by decide, by decide⟩
 
-/-- non-vacuity of `PlacementHonoured` and of the budget hypotheses: `Retry(redirect=2)` per request
-on a `PoolManager` in the redirect loop: budget 2, exactly 2 followed -/
-example : PlacementHonoured (.manager ⟨.none, .dict [], none⟩)
-      (plainReq (.retry (Retry.ofTotal (.num 10) (.num 2)))) ∧
+/-- non-vacuity of the budget hypotheses: `Retry(redirect=2)` per request and on the constructor of a
+`PoolManager` in the redirect loop: budget 2, exactly 2 followed -/
+example :
     (supplied (.manager ⟨.none, .dict [], none⟩)
       (plainReq (.retry (Retry.ofTotal (.num 10) (.num 2))))).redirectBudget = some 2 ∧
     (run loopWorld (.manager ⟨.none, .dict [], none⟩) 10
-      (plainReq (.retry (Retry.ofTotal (.num 10) (.num 2))))).followed = 2 := by
-  refine ⟨Or.inl (by simp [plainReq]), by decide, by decide⟩
+      (plainReq (.retry (Retry.ofTotal (.num 10) (.num 2))))).followed = 2 ∧
+    (supplied (.manager ⟨.retry (Retry.ofTotal (.num 10) (.num 2)), .dict [], none⟩)
+      (plainReq .none)).redirectBudget = some 2 ∧
+    (run loopWorld (.manager ⟨.retry (Retry.ofTotal (.num 10) (.num 2)), .dict [], none⟩) 10
+      (plainReq .none)).followed = 2 := by
+  refine ⟨by decide, by decide, by decide, by decide⟩
 
 /-! ### redirects disabled -/
 
@@ -149,7 +155,8 @@ theorem C05_disabled_untouched (W : World) (c : Client) (fuel : Nat) (req : Req)
       · rw [h] at hred; cases hred
       · rw [h.2] at hout; exact Or.inl hout
 
-/-- the spellings of "disabled" the property names all satisfy `RedirectDisabled` -/
+/-- the spellings of "disabled" the property names all satisfy `RedirectDisabled`, at every placement:
+per request, as a bare pool's default, and as the `PoolManager` / `ProxyManager` constructor's policy -/
 theorem C05_disabled_forms (c : Client) (req : Req) :
     (req.redirect = some false → RedirectDisabled c req) ∧
     (req.retries = .false → RedirectDisabled c req) ∧
@@ -158,12 +165,16 @@ theorem C05_disabled_forms (c : Client) (req : Req) :
     (∀ pl : Pool, c = .pool pl → req.retries = .none → pl.retries = .false → RedirectDisabled c req) ∧
     (∀ (pl : Pool) (p : Retry), c = .pool pl → req.retries = .none →
       (p.redirect = .disabled ∨ p.total = .disabled) → pl.retries = .retry (Retry.init p) →
+      RedirectDisabled c req) ∧
+    (∀ m : Mgr, c = .manager m → req.retries = .none → m.retries = .false → RedirectDisabled c req) ∧
+    (∀ (m : Mgr) (p : Retry), c = .manager m → req.retries = .none →
+      (p.redirect = .disabled ∨ p.total = .disabled) → m.retries = .retry (Retry.init p) →
       RedirectDisabled c req) := by
-  refine ⟨fun h => Or.inl h, ?_, ?_, ?_, ?_⟩
+  refine ⟨fun h => Or.inl h, ?_, ?_, ?_, ?_, ?_, ?_⟩
   · intro h
     right
     have key : effective c req = Retry.fromInt .false (req.redirect.getD true)
-        (match c with | .manager _ => .none | .pool p => p.retries) := by
+        (match c with | .manager m => m.retries | .pool p => p.retries) := by
       cases c <;> simp [effective, h, deriveRetry]
     rw [key]
     exact ⟨Or.inl (fromInt_false _ _).1, (fromInt_false _ _).2⟩
@@ -189,6 +200,22 @@ theorem C05_disabled_forms (c : Client) (req : Req) :
       rw [h, hpl]; exact fromInt_none_retry (req.redirect.getD true) _
     rw [key]
     exact ⟨Or.inl (init_disabled p hp).1, (init_disabled p hp).2⟩
+  · intro m hc h hm
+    right
+    subst hc
+    have key : effective (.manager m) req = Retry.fromInt .false (req.redirect.getD true) .none := by
+      show deriveRetry req.retries (req.redirect.getD true) m.retries = _
+      rw [h, hm]; exact fromInt_none_false (req.redirect.getD true)
+    rw [key]
+    exact ⟨Or.inl (fromInt_false _ _).1, (fromInt_false _ _).2⟩
+  · intro m p hc h hp hm
+    right
+    subst hc
+    have key : effective (.manager m) req = Retry.init p := by
+      show deriveRetry req.retries (req.redirect.getD true) m.retries = _
+      rw [h, hm]; exact fromInt_none_retry (req.redirect.getD true) _
+    rw [key]
+    exact ⟨Or.inl (init_disabled p hp).1, (init_disabled p hp).2⟩
 
 /-- non-vacuity: `retries=False` per request in the redirect loop — disabled, one request, the 302 back -/
 example : RedirectDisabled (.manager ⟨.none, .dict [], none⟩) (plainReq .false) ∧
@@ -196,6 +223,20 @@ example : RedirectDisabled (.manager ⟨.none, .dict [], none⟩) (plainReq .fal
     (run loopWorld (.manager ⟨.none, .dict [], none⟩) 10 (plainReq .false)).outcome
       = .response ⟨302, some [47, 110]⟩ :=
   ⟨(C05_disabled_forms _ _).2.1 rfl, by decide, by decide⟩
+
+/-- non-vacuity of the manager-level forms: `PoolManager(retries=False)` and
+`PoolManager(retries=Retry(redirect=False))`, nothing per request, in the redirect loop — disabled, one
+request, the 302 back -/
+example : RedirectDisabled (.manager ⟨.false, .dict [], none⟩) (plainReq .none) ∧
+    (run loopWorld (.manager ⟨.false, .dict [], none⟩) 10 (plainReq .none)).log.length = 1 ∧
+    RedirectDisabled (.manager ⟨.retry (Retry.init { Retry.initDefaults with redirect := .disabled }), .dict [], none⟩)
+      (plainReq .none) ∧
+    (run loopWorld (.manager ⟨.retry (Retry.init { Retry.initDefaults with redirect := .disabled }), .dict [], none⟩) 10
+      (plainReq .none)).log.length = 1 ∧
+    (run loopWorld (.manager ⟨.retry (Retry.init { Retry.initDefaults with redirect := .disabled }), .dict [], none⟩) 10
+      (plainReq .none)).outcome = .response ⟨302, some [47, 110]⟩ :=
+  ⟨(C05_disabled_forms _ _).2.2.2.2.2.1 _ rfl rfl rfl, by decide,
+   (C05_disabled_forms _ _).2.2.2.2.2.2 _ _ rfl rfl (Or.inl rfl) rfl, by decide, by decide⟩
 
 /-! ### hop by hop: method, body, target -/
 
